@@ -18,6 +18,15 @@ CLAIMED = {
  "C05": dict(level="model_checking", ref="DESIGN.md 5 (C05)",
    text="Bounded exhaustive exploration of generic source definitions (driver D-generic: 3 body forms x 5 parameter forms x all field lists of <=2 (thorough 3) fields over a 20-entry parameter-centred alphabet x all sets of <=2 (thorough 3) instantiations, filtered by coincidence-freeness): exactly one item per definition, generics = non-skipped parameters by declared position, every field type equal to the source field type under the documented normalisations (independent reference printer), marker names exactly the unused parameters, every instantiation resolves to that item with its own arguments.",
    note="Source programs are SPM programs; their registries come from the elaborator (conformance-checked against real scale-info at every start)."),
+ "C06": dict(level="model_checking", ref="DESIGN.md 5 (C06), 6",
+   text="For every case of a corpus (registries with several renamed paths, unused parameters, generics, a chain-metadata closure x settings with same-last-segment derives, attributes differing only in arguments, specific+recursive registrations, substitutes, unknown paths): every permutation of each registration list, every map-iteration schedule with <= 2 (large traces: <= 1) deviating iteration points plus uniform permutations - explored through the verif-hooks schedulable maps, like a context-bounded scheduler - and 3 fresh mc-plain processes with real std maps must give a token-identical module, de-duplicated registry and validation result; derive/attribute lists must be strictly sorted.",
+   note="Map seeds are represented by iteration orders of look-alike maps (feature verif-hooks); the look-alike is tied to std maps by the mc/mc-plain differential run on every case. The level of schedule exploration completed per case is in the evidence."),
+ "C10": dict(level="fault_enumeration", ref="DESIGN.md 5 (C10)",
+   text="Every single fault of each documented kind (id swap, id shift, named/unnamed mix per field, compact path unset, bits path unset, dangling id at every field / element / tuple element / bit store / bit order / type parameter site) on every base registry of driver D-arms, evaluated through generate_types_mod, ensure_unique_type_paths and resolve_type_path of every id under catch_unwind and compared with the documented error variant and payload computed by a reference traversal; plus the fault-free side (D-arms with special type names, D-generic, D-family, real scale-info corpus registries, Polkadot): Ok or DuplicateTypePath only, never a panic.",
+   note="Which calls reach a fault is decided by a reference traversal written from the documented behaviour. PhantomData in type position is a recorded known finding."),
+ "C11": dict(level="model_checking", ref="DESIGN.md 5 (C11)",
+   text="All assignments of 8 registration kinds to 2 known + 2 unknown paths (one unknown path a proper suffix of a known one) x 3 registries x all map-iteration schedules with <= 2 deviating points: the validation result, as sets, must equal a set-algebra model of 'unknown paths' (each once, union of specific and recursive registrations, substitutes with targets). All ordered selections of <= 4 registry paths x 9 queries for the similar-path query against a list model.",
+   note="Set/list reference models written from the property statement."),
  "C15": dict(level="model_checking", ref="DESIGN.md 5 (C15)",
    text="Exhaustive enumeration of the formatter's input space up to a length bound (all strings over the 9-symbol alphabet; all properly nested strings to a larger bound; macro-letter strings straddling the 32-character look-ahead; every description the crate produces for Polkadot and D-arms), each run through the real formatter and compared with the whitespace-erasure oracle and an independent indentation reader.",
    note="The 'randomly for longer strings' clause is not sampled (sampling is a different family); longer strings are covered by the structured families only. Termination = completion inside the wall budget."),
